@@ -123,7 +123,7 @@ namespace RecInt
     }
     template <size_t K, typename T>
     inline __RECINT_IS_SIGNED(T, ruint<K>&) operator+=(ruint<K>& a, const T& b) {
-        if (b < 0) sub(a, -b);
+        if (b < 0) sub(a, __recint_mag(b));
         else add(a, b);
         return a;
     }
@@ -151,14 +151,14 @@ namespace RecInt
     template <size_t K, typename T>
     inline __RECINT_IS_SIGNED(T, ruint<K>) operator+(const ruint<K>& b, const T& c) {
         ruint<K> a;
-        if (c < 0) sub(a, b, -c);
+        if (c < 0) sub(a, b, __recint_mag(c));
         else add(a, b, c);
         return a;
     }
     template <size_t K, typename T>
     inline __RECINT_IS_SIGNED(T, ruint<K>) operator+(const T& c, const ruint<K>& b) {
         ruint<K> a;
-        if (c < 0) sub(a, b, -c);
+        if (c < 0) sub(a, b, __recint_mag(c));
         else add(a, b, c);
         return a;
     }
